@@ -37,7 +37,7 @@ PROPERTIES: dict[str, dict] = {
     "C09": {"title": "The reveal-one-coalition environment", "rules": [gym.rule_c09_typestate, gym.rule_c09_step, gym.rule_c09_spaces, gym.rule_c09_reset, gym.rule_c09_done, gym.rule_h3_undo, wiring.rule_env_factory, wiring.rule_known_coalitions, normalize.rule_m1, normalize.rule_m2345, game.rule_c17_columns, game.rule_c17_getters, game.rule_c17_copy_neg_init],
             "explanation": _NOTE + " C09: T1 recompute-before-observe typestate, Y1 reveal pairing, Y2 index-space agreement, Y3 reset order/aliasing, Y4 explorable set, Y5 reward sign, D1 done predicate, H3 undo pairing.",
             "rule": _SITE_RULE},
-    "C10": {"title": "Every offered generator runs and yields a game of its class", "rules": [generators.rule_nsig, generators.rule_nint, generators.rule_nrng, wiring.rule_graph_game, coalitions.rule_k1_k2, coalitions.rule_k3_operators],
+    "C10": {"title": "Every offered generator runs and yields a game of its class", "rules": [generators.rule_nsig, generators.rule_nint, generators.rule_nrng, generators.rule_next_nfac, wiring.rule_graph_game, coalitions.rule_k1_k2, coalitions.rule_k3_operators],
             "explanation": _NOTE + " C10: N-sig registry exhaustiveness against the call convention, N-int NumPy-integer flow into int-dispatching operands (sinks derived from isinstance tests), N-rng RNG-source discipline of every reachable generator function.",
             "rule": _SITE_RULE},
     "C11": {"title": "Exhaustive search", "rules": [evaluation.rule_p1_pool_api, gameplay.rule_c11_worker, gameplay.rule_p4_paired, gameplay.rule_c11_best_states, gameplay.rule_l1_lazy_reuse, wiring.rule_known_coalitions],
@@ -46,10 +46,10 @@ PROPERTIES: dict[str, dict] = {
     "C12": {"title": "evaluate() records true trajectories; independent of parallelism", "rules": [evaluation.rule_c12_recording, evaluation.rule_p1_pool_api, evaluation.rule_c12_rng, wiring.rule_solve_wiring, wiring.rule_env_factory, gym.rule_c09_step],
             "explanation": _NOTE + " C12: Q1 recording order/positions/keys in eval_one, Q2 task tuples and stacking in evaluate, P1 order-preserving pool API, Q3 RNG-ownership analysis across the task boundary (shared and process-global RNG state).",
             "rule": _SITE_RULE},
-    "C13": {"title": "Built-in solvers", "rules": [solvers.rule_c13_pairing_readonly, solvers.rule_c13_validity, solvers.rule_c13_choice, solvers.rule_c13_expected_greedy, solvers.rule_c13_registry, gym.rule_h3_undo, gym.rule_c09_typestate],
+    "C13": {"title": "Built-in solvers", "rules": [solvers.rule_c13_pairing_readonly, solvers.rule_c13_validity, solvers.rule_c13_choice, solvers.rule_c13_expected_greedy, solvers.rule_c13_registry, gym.rule_h3_undo, gym.rule_c09_typestate, gameplay.rule_c11_worker],
             "explanation": _NOTE + " C13: V1 step/unstep pairing on all paths, V2 read-only use of the env, V3 returned action drawn from the mask-filtered list, V4 choice rules (extremum polarity, first match), V5 expected greedy (argmin over games axis, append+remove, curve row), REG-S registry.",
             "rule": _SITE_RULE},
-    "C14": {"title": "Regret minimiser", "rules": [regret.rule_r1_index_spaces, regret.rule_r2_save_load, regret.rule_r345, coalitions.rule_k3_operators],
+    "C14": {"title": "Regret minimiser", "rules": [regret.rule_r1_index_spaces, regret.rule_r1_coalition_args, regret.rule_r2_save_load, regret.rule_r345, coalitions.rule_k3_operators],
             "explanation": _NOTE + " C14: R1 index-space typing (allocation space must contain every index space used on the array; spaces COAL/PID/MID/RANK/RM derived from size expressions and provenance), R2 save/load agreement, R3 plus-clipping order, R4 fallback support, R5 ordering of coalition sets.",
             "rule": _SITE_RULE},
     "C15": {"title": "Normalisation", "rules": [normalize.rule_m1, normalize.rule_m2345, wiring.rule_graph_game],
@@ -58,7 +58,7 @@ PROPERTIES: dict[str, dict] = {
     "C16": {"title": "The size-aggregated environment", "rules": [gym.rule_c16, gym.rule_c09_step, gym.rule_c09_spaces],
             "explanation": _NOTE + " C16: Z1 aggregation of every observation/mask, Z2 candidate set = size AND mask, Z3 pass-through, Z4 sizes aligned with the inner explorable list.",
             "rule": _SITE_RULE},
-    "C17": {"title": "An incomplete game object is a faithful map", "rules": [game.rule_c17_columns, game.rule_c17_getters, game.rule_c17_copy_neg_init, game.rule_c17_writers],
+    "C17": {"title": "An incomplete game object is a faithful map", "rules": [game.rule_c17_columns, game.rule_c17_getters, game.rule_c17_copy_neg_init, game.rule_c17_writers, gameplay.rule_l1_lazy_reuse],
             "explanation": _NOTE + " C17: G1 column discipline, G2 guarded getters, G3 masked bulk setters, G4 copy/negation, G5 who-may-write _values, G6 view escape, G7 reset order, G8 reveal/unreveal preconditions.",
             "rule": _SITE_RULE},
     "C18": {"title": "Coalitions are finite sets; predicates match definitions", "rules": [coalitions.rule_k3_operators, coalitions.rule_e_enum, coalitions.rule_k1_k2],
